@@ -173,7 +173,7 @@ def _job_runner(args):
         mod = importlib.import_module(modname)
         with open(os.devnull, "w") as dn, contextlib.redirect_stdout(dn):      # the library prints advice to stdout
             return ("ok", getattr(mod, fname)(job))
-    except Exception:  # noqa: BLE001
+    except BaseException:  # noqa: BLE001  (also a watchdog exception that escaped its call: a worker that dies would hang the pool)
         return ("err", traceback.format_exc())
 
 
